@@ -46,11 +46,17 @@ INLINE_REWRITES = [
     {'rule': 'R1', 'find': 'lexer.next_expect("ID")?;',
      'replace': 'proof { lemma_literals(); assert forall|n: nat| (hdr_ends(s0, n) || hdr_bad(s0, n)) implies n == cnt by { lemma_hdr_excl(s0, n, cnt); } } '
                 'lexer.next_expect("ID")?; let ghost idend = lexer.pos as int;'},
+    # R7 + R1 (shape, count '*'): `<e>.iter().take_while(|b| b.is_ascii_<kind>()).count()` -> generic L0 helper; the closure keeps its
+    # body and gets the `ensures` an unannotated closure lacks; <e>, the binder and the predicate kind are captured
+    {'rule': 'R7', 'regex': r'([\w.()&*]+?)\.iter\(\)\s*\.take_while\(\|(\w+)\|\s*\2\.is_ascii_(\w+)\(\)\)\s*\.count\(\)', 'count': '*',
+     'replace': r'{ let f_ = |\2: &&u8| -> (k_: bool) ensures k_ == \2.is_ascii_\3() { \2.is_ascii_\3() }; '
+                r'proof { assert(computes_u8(f_, |c_: u8| spec_is_ascii_\3(&c_))); } iter_take_while_count(\1, f_) }'},
     # R2: impl AsRef<[u8]> argument
     {'rule': 'R2', 'regex': r'lexer\.seek_substr\(("(?:[^"\\]|\\.)*")\)', 'replace': r'lexer.seek_substr(str_as_bytes(\1))'},
     {'rule': 'R1', 'find': 'if lexer.seek_substr(', 'replace': 'proof { lemma_literals(); assert(all_ascii("\\nEI"@)); assert(ascii_bytes("\\nEI"@) =~= lf_e_i()); } if lexer.seek_substr('},
-    {'rule': 'R1', 'regex': r'let data_end = ([^;]*);',
-     'replace': r'let data_end = \1; let ghost q0 = lexer.pos as int - 3; '
+    # anchored on the shape "the `if lexer.seek_substr(..).. { .. }` block" (not on the name of the local that follows it)
+    {'rule': 'R1', 'regex': r'(if\s+lexer\.seek_substr\([^{]*\{[^{}]*\})',
+     'replace': r'\1 let ghost q0 = lexer.pos as int - 3; '
                 'proof { assert(first_occ(s0.buf, lf_e_i(), idend, q0)); '
                 'assert forall|q: int| first_occ(s0.buf, lf_e_i(), idend, q) implies q == q0 by { if q < q0 { assert(!occ(s0.buf, lf_e_i(), q)); } else if q0 < q { assert(!occ(s0.buf, lf_e_i(), q0)); } } }'},
     MAP_PLAIN, MAP_TRANSPOSE,
